@@ -24,6 +24,10 @@ func profile() sim.Profile {
 	pf.PTopology = 3
 	pf.PSubGroups = 3
 	pf.PFaults = 0
+	pf.PDRA = 4
+	pf.PSharing = 4
+	pf.PBinding = 3
+	pf.PMutations = 0
 	pf.MinCycles = 1
 	pf.MaxCycles = 2
 	pf.PPersistent = 0 // hostile objects (NaN quotas ...) never compare equal between informer and store
@@ -38,6 +42,7 @@ type Case struct {
 func gen(t *rapid.T) *Case {
 	w := sim.GenWorld(t, profile())
 	applied := sim.Hostilize(t, w)
+	applied = append(applied, sim.HostilizeRaw(t, w)...)
 	sim.AddWitness(w)
 	return &Case{World: w, Hostile: applied}
 }
@@ -95,7 +100,11 @@ func TestCheckCycleCompletes(t *testing.T) {
 		sig, msg, h := judge(c)
 		classes := append([]string{}, c.Hostile...)
 		for i, cl := range classes {
-			if j := strings.Index(cl, ":"); j > 0 {
+			if strings.HasPrefix(cl, "raw:") {
+				if parts := strings.SplitN(cl, ":", 3); len(parts) >= 2 {
+					classes[i] = "raw:" + parts[1]
+				}
+			} else if j := strings.Index(cl, ":"); j > 0 {
 				classes[i] = cl[:j]
 			}
 		}
